@@ -1,0 +1,36 @@
+//go:build verif
+
+package sub
+
+import "go.nanomsg.org/mangos/v3/protocol"
+
+// Read-only projection of the SUB socket state for the conformance harness
+// in /verif (build tag "verif").
+
+// VerifCtx is the projected state of one context.
+type VerifCtx struct {
+	Closed bool
+	QLen   int
+	Queued int
+	Subs   [][]byte
+}
+
+// VerifSnapshot projects the state of the given contexts of p (nil stands
+// for the default context).
+func VerifSnapshot(p protocol.Protocol, ctxs []protocol.Context) (closed bool, out []VerifCtx) {
+	s := p.(*socket)
+	s.Lock()
+	defer s.Unlock()
+	for _, pc := range ctxs {
+		c := s.master
+		if pc != nil {
+			c = pc.(*context)
+		}
+		v := VerifCtx{Closed: c.closed, QLen: c.recvQLen, Queued: len(c.recvQ)}
+		for _, t := range c.subs {
+			v.Subs = append(v.Subs, append([]byte{}, t...))
+		}
+		out = append(out, v)
+	}
+	return s.closed, out
+}
